@@ -10,51 +10,62 @@ package utils
 
 //@ func (*ValueRange).Diff
 //@   property C14 C17 C18 C19 C01 C07 C09 C12 C13 C20
+//@   indexsafe
 //@   nopanic
 //@   ensures [diff] result == r.Max - r.Min
 //@ func (*ValueRange).ScaleEqually
 //@   property C17 C18 C01 C07 C09 C19 C20
+//@   indexsafe
 //@   nopanic
 //@   ensures [scaled] fresh(result) && result.Min == scaledMin(*r, scale) && result.Max == scaledMax(*r, scale)
 //@ func NewValueRange
 //@   property C14 C16 C17 C18 C01 C03 C04 C07 C09 C12 C13 C19 C20
+//@   indexsafe
 //@   ensures [zero] fresh(result) && result.Min == 0.0 && result.Max == 0.0
 
 //@ func (*ExpFromZeroFunction).Evaluate
 //@   property C17 C19 C01 C09 C07 C20
+//@   indexsafe
 //@   ensures [formula] result == e.Multiplier * exp(e.Alpha * value) - e.Multiplier
 //@ func (*LinearFunctionParameters).Evaluate
 //@   property C05 C19 C01 C06 C20 C09
+//@   indexsafe
 //@   ensures [ok] ok <==> !(f.A == 0.0 && f.B == 0.0)
 //@   ensures [value] (ok ==> result == f.A * value + f.B) && (!ok ==> result == 0.0)
 
 // a draw u in [0,1) becomes min + u * (max - min): the width is the signed difference (a negative scaling mirrors the range)
 //@ func NewValueInRangeGenerator
 //@   property C18 C01 C07 C09 C20
+//@   indexsafe
 //@   returnhint [width_is_max_minus_min] dif == valueRange.Max - valueRange.Min
 //@   ensures [a_generator] true
 //@ func NewValueInRangeGenerator$1
 //@   property C18 C01 C07 C09 C20
+//@   indexsafe
 //@   fnparam generator ensures 0.0 <= result && result < 1.0
 //@   ensures [in_range] exists u real :: 0.0 <= u && u < 1.0 && result == u * dif + valueRange.Min
 
 //@ func IsProbability
 //@   property C15 C18 C20 C01 C07 C09 C16
+//@   indexsafe
 //@   nopanic
 //@   ensures result <==> (0.0 <= value && value <= 1.0)
 //@ func IsPositive
 //@   property C05 C20 C18 C01 C06
+//@   indexsafe
 //@   nopanic
 //@   ensures result <==> value > 0.0
 
 //@ func ContainsString
 //@   property C09 C20 C01 C18 C03 C04 C05 C06 C07 C08 C11 C12 C13 C14 C15 C16 C17 C19
+//@   indexsafe
 //@   nopanic
 //@   ensures [member] result <==> exists k int :: 0 <= k && k < len(*slice) && (*slice)[k] == *value
 //@   loop 1 invariant [none] forall k int :: 0 <= k && k < iter ==> (*slice)[k] != *value
 
 //@ func ContainsInts
 //@   property C05 C06 C01 C20 C18
+//@   indexsafe
 //@   nopanic
 //@   ensures [member] result <==> exists k int :: 0 <= k && k < len(*slice) && (*slice)[k] == *value
 //@   loop 1 invariant [none] forall k int :: 0 <= k && k < iter ==> (*slice)[k] != *value
@@ -62,17 +73,20 @@ package utils
 // the tolerance test of the Choquet tie groups: absolute difference, bound included
 //@ func FloatsAreEqual
 //@   property C03 C02 C01 C09 C11 C18 C04 C07 C15 C16 C19 C20
+//@   indexsafe
 //@   nopanic
 //@   ensures [absolute_tolerance] result <==> abs(expected - actual) <= epsilon
 
 //@ func IsInBounds
 //@   property C20 C08 C12 C13 C01 C07 C09 C15 C16 C18
+//@   indexsafe
 //@   nopanic
 //@   ensures [closed_interval] result <==> lower <= value && value <= upper
 
 // the first occurrence is cut out (the rest keeps its order); nothing changes when it does not occur
 //@ func RemoveSingleStringOccurrence
 //@   property C07 C18 C03 C01 C09 C19 C20
+//@   indexsafe
 //@   ensures [absent_unchanged] (forall k int :: 0 <= k && k < len(s) ==> old(s[k]) != r) ==> result == s
 //@   ensures [one_shorter] (exists k int :: 0 <= k && k < len(s) && old(s[k]) == r) ==> len(result) == len(s) - 1
 //@   ensures [same_backing_array] len(s) > 0 ==> arr(result) == arr(s)
@@ -82,6 +96,7 @@ package utils
 // the seeded generator every bias and the bias-firing loop are wired with: a private source per call, values in [0,1)
 //@ func RandomBasedSeedValueGenerator$1
 //@   property C08 C17 C18 C02
+//@   indexsafe
 //@   ensures [unit_interval] 0.0 <= result && result < 1.0
 
 // ---- wire format: the JSON names under which requests are read and responses are written (struct tags; encoding/json
@@ -114,6 +129,7 @@ package utils
 // AsMap: every listed object under its own name (a later object with the same name replaces an earlier one)
 //@ func AsMap
 //@   property C20 C01 C03 C04 C05 C06 C07 C08 C09 C11 C12 C13 C14 C15 C16 C17 C18 C19
+//@   indexsafe
 //@   ensures [names_of_the_listed_objects] result != nil && forall q string :: q in *result <==> exists i int :: 0 <= i && i < iterLen(objects) && identOf(iterAt(objects, i)) == q
 //@   ensures [each_name_leads_to_an_object_of_that_name] forall q string :: q in *result ==> exists i int :: 0 <= i && i < iterLen(objects) && (*result)[q] == iterAt(objects, i) && identOf(iterAt(objects, i)) == q
 //@   loop 1 invariant [ctx] fresh(interfaceSlice) && interfaceSlice != nil && total == iterLen(objects) && 0 <= i
@@ -127,9 +143,11 @@ package utils
 //@   loop 1 invariant [so_far] fresh(interfaceSlice) && len(interfaceSlice) == total && total == iterLen(objects) && 0 <= i && forall k int :: 0 <= k && k < i && k < total ==> interfaceSlice[k] == iterAt(objects, k)
 //@ func ContainsByIdentity
 //@   property C20 C03 C01
+//@   indexsafe
 //@   ensures [some_object_has_that_name] result <==> exists k int :: 0 <= k && k < len(*slice) && identOf((*slice)[k]) == *value
 //@   loop 1 invariant [none_so_far] forall k int :: 0 <= k && k < iter ==> identOf((*slice)[k]) != *value
 //@ func ContainsAll
 //@   property C20 C03 C01
+//@   indexsafe
 //@   ensures [every_name_belongs_to_an_object] result <==> forall j int :: 0 <= j && j < len(*values) ==> exists k int :: 0 <= k && k < len(*slice) && identOf((*slice)[k]) == (*values)[j]
 //@   loop 1 invariant [all_so_far] forall j int :: 0 <= j && j < iter ==> exists k int :: 0 <= k && k < len(*slice) && identOf((*slice)[k]) == (*values)[j]
